@@ -16,7 +16,7 @@
                          (no later element's name is less than an earlier element's name)
      cache_sound u     = is_sorted u = true -> sorted_by name_less (params u)
      has_name n p      = str_eqb (fst p) n;   with_name n l = filter (has_name n) l
-   The premise about compare_by_code_units is proved separately (property C12); it is an
+   The premise about compare_by_code_units is proved separately (Properties_C16_compare.v: C16_compare_lt, C16_refine_closed); it is an
    explicit hypothesis of the theorems that need it. *)
 From Upa Require Import Base.Prelude Spec.Utf Spec.CodePoints Spec.Percent Spec.UrlEncoded
   Impl.Tables Impl.Utf Impl.SearchParams Proofs.UtfFacts Proofs.UrlEncodedProofs Proofs.SearchParamsProofs.
